@@ -99,10 +99,11 @@ def polyak_cases(rep, rng, dev, tier):
 
 def screening_runs(rep, rng, dev, tier):
     from tdgl.solver.solver import TDGLSolver
-    plans = [(1e-2, 0.1, 0.5), (1e-3, 0.5, 1.0), (1e-4, 0.5, 1.0)] if tier == "quick" else \
+    plans = [(1e-2, 0.1, 0.5), (1e-3, 0.5, 1.0), (1e-4, 0.5, 1.0), (1e-2, 0.02, 0.5)] if tier == "quick" else \
         [(1e-2, 0.1, 0.5), (1e-3, 0.5, 1.0), (1e-4, 0.5, 1.0), (3e-3, 1.0, 1.0), (1e-3, 0.1, 0.25), (1e-2, 1.0, 0.5)]
     worst_ratio = 0.0
     last_sol = None
+    ind_bad = []
     for tol, alpha, beta in plans:
         it_log = []
         cur_iters = []
@@ -135,9 +136,18 @@ def screening_runs(rep, rng, dev, tier):
             solver = TDGLSolver(dev, opts, applied_vector_potential=0.8, terminal_currents={"source": 2.0, "drain": -2.0})
             orig_giv = solver.get_induced_vector_potential
 
-            def giv(current_density, A_vals, velocity):
+            def giv(current_density, A_vals, velocity, tol=tol, alpha=alpha, beta=beta):
+                A_prev = np.array(A_vals[-1], copy=True)
                 A, err = orig_giv(current_density, A_vals, velocity)
                 cur_iters.append(float(err))
+                # the error the loop decides on must be the relative mismatch between the iterate and the direct sum,
+                # recomputed here independently of the implementation's kernel and bookkeeping
+                Js_ = solver.device.mesh.get_quantity_on_site(np.asarray(current_density))
+                K_ = direct_sum(Js_, solver.areas, solver.sites, solver.edge_centers)
+                ind = float(np.max(np.linalg.norm(K_ - A_prev, axis=1) / np.maximum(np.linalg.norm(np.asarray(A), axis=1), 1e-20)))
+                if len(A_vals) > 1 and abs(ind - float(err)) > 1e-6 * max(ind, float(err)) and len(ind_bad) < 3:
+                    ind_bad.append({"tol": tol, "alpha": alpha, "beta": beta, "reported": float(err), "recomputed": ind,
+                                    "accepted_as_converged": bool(err < tol), "truly_below_tolerance": bool(ind < tol)})
                 return A, err
 
             solver.get_induced_vector_potential = giv
@@ -177,6 +187,13 @@ def screening_runs(rep, rng, dev, tier):
         rep.sample({"tol": tol, "alpha": alpha, "beta": beta, "steps": len(it_log),
                     "iterations_per_step_head": [len(e) for e in it_log[:6]], "max_mismatch_over_tol": mx})
     rep.coverage["worst_stored_mismatch_over_tol"] = worst_ratio
+    for b in ind_bad:
+        if b["accepted_as_converged"] and not b["truly_below_tolerance"]:
+            rep.violation("a screening iteration was accepted as converged although the relative mismatch between the iterate "
+                          "and the direct (mu_0/4 pi) sum over cells is not below the tolerance", b)
+        else:
+            rep.violation("the screening error the loop decides on is not the relative mismatch between the iterate and the "
+                          "direct sum over cells", b)
     # forced non-convergence must raise
     with tempfile.TemporaryDirectory(prefix="pyt_c13_") as td:
         opts = runs.make_options(td, solve_time=0.05, dt_init=2e-3, dt_max=2e-2, include_screening=True, screening_tolerance=1e-9,
